@@ -9,7 +9,7 @@
    Flat tuples of the generated definitions (parameters flattened in declaration order, then the data members in
    declaration order) are mapped to the model's records by aabb2/3, ival2/3, vec2/3, pc2/3, obb2/3 below.
    Robust to: renaming, hoisting a sub-expression into a local, reordering independent statements, commuting the
-   operands of + and *, writing `>=` for a flipped `<=`, cwiseAbs()/cwiseMin/cwiseMax for array().abs()/min/max, a range-for
+   operands of + and *, moving a negation in or out of a product, writing `>=` for a flipped `<=`, cwiseAbs()/cwiseMin/cwiseMax for array().abs()/min/max, a range-for
    instead of the indexed loop.  NOT robust to re-association (not an identity in floating point) — and it must not be.
    Breaks on: `<=` -> `<`, abs dropped, transpose() added/removed, rows/columns swapped, lowest() -> min(), the mean not
    reset or divided by something else, min/max swapped, half extents where full widths are meant, getters swapped. *)
@@ -59,7 +59,10 @@ Ltac munfold :=
     obb_inside obb_to_aabb abs_row_extent tr_mul_vec mul_vec column dot vadd vsub vabs vhalf vconst max_coeff ngeb ngtb
     map2 all2 map fold_left combine seq length nth fst snd repeat firstn
     a_center a_half i_lower i_upper o_center o_half o_rot].
-Ltac lit := rewrite ?(lit_ofZ0 N L), ?(lit_ofZ1 N L), ?(lit_dec2 N L).
+Lemma lit_negmulR a b : nmul N a (nneg N b) = nneg N (nmul N a b).
+Proof using N L. rewrite (lit_mulC N L), (lit_negmul N L), (lit_mulC N L). reflexivity. Qed.
+(* literals; negations are moved out of products on both sides: (-a)*b, a*(-b), -(a*b) are the same number *)
+Ltac lit := rewrite ?(lit_ofZ0 N L), ?(lit_ofZ1 N L), ?(lit_dec2 N L), ?(lit_negmul N L), ?lit_negmulR.
 Ltac geq n :=
   lazymatch n with
   | O => fail "terms differ"
